@@ -158,6 +158,9 @@ class Verdict:
             print(f"VIOLATION property={self.prop} replay={rp}")
             rc = 1
         evdir = EVIDENCE if self.prop.startswith("C") else os.path.join(VERIF, "evidence_extra")
+        if os.path.realpath(repo_dir()) != "/repo":
+            # a run against a scratch tree (seeded / benign change) must not replace the evidence of /repo
+            evdir = os.path.join(WORK, "evidence_other_tree")
         os.makedirs(evdir, exist_ok=True)  # X.. ids: components specified beyond the listed properties
         with open(os.path.join(evdir, f"{self.prop}.json"), "w") as f:
             json.dump(ev, f, indent=1, default=str)
